@@ -38,6 +38,17 @@ def run_case(case):
     def cdiff(a, b):
         return clib.reb_simulation_diff(ctypes.byref(a), ctypes.byref(b), ctypes.c_int(2))
 
+    def creport(a, b):
+        """names listed by the human-readable report (what Simulation.diff prints), and the raw text"""
+        clib.reb_simulation_diff_char.restype = ctypes.c_void_p
+        p_ = clib.reb_simulation_diff_char(ctypes.byref(a), ctypes.byref(b))
+        if not p_:
+            return None, ''
+        txt = ctypes.string_at(p_).decode('utf-8', 'replace')
+        clib.reb_free(ctypes.c_void_p(p_))
+        names = [ln[:-1] for ln in txt.split('\n') if ln.endswith(':') and not ln.startswith(('\x1b', '<', '>', '-'))]
+        return names, txt
+
     def must_equal(a, b, what):
         counters['equal_pairs'] += 1
         ca, cb = rt.sabin_sim(a), rt.sabin_sim(b)
@@ -305,6 +316,7 @@ def run_case(case):
             is_wall = name.startswith('walltime')
             r1, r2 = cdiff(x, y), cdiff(y, x)
             eq = (x == y)
+            rn, rtxt = creport(x, y)
             if is_wall:
                 counters['walltime_perturbations'] += 1
                 if r1 or r2 or not eq:
@@ -321,6 +333,19 @@ def run_case(case):
                 continue        # the perturbation did not reach the persisted content (e.g. re-derived by init): says nothing
             counters['perturbations_effective'] += 1
             cells.append(['perturb', name] + ([pm[0]] if pm else []))
+            # the human-readable report (Simulation.diff): names exactly the fields whose persisted content differs (wall-clock fields may be listed)
+            counters['reports_checked'] = counters.get('reports_checked', 0) + 1
+            if rn is None:
+                viol.append(dict(mech='report:no-text-returned', msg='reb_simulation_diff_char returned NULL for a pair differing in %s' % name))
+            else:
+                truth_ = set(str(k_) for k_ in changed)
+                listed_ = set(n_ for n_ in rn if not n_.startswith('walltime'))
+                if not truth_ <= listed_:
+                    viol.append(dict(mech='report:differing-field-not-listed:%s' % name, msg='fields %r differ (%s) but the report lists only %r' % (sorted(truth_ - listed_), did, sorted(listed_))))
+                if not listed_ <= truth_:
+                    viol.append(dict(mech='report:field-listed-that-does-not-differ', msg='perturbed %s (%s): the report lists %r, persisted content differs only in %r' % (name, did, sorted(listed_ - truth_), sorted(truth_))))
+                if len(rn) != len(set(rn)):
+                    viol.append(dict(mech='report:field-listed-twice', msg='perturbed %s: %r' % (name, rn)))
             if r1 == 0 or r2 == 0 or eq:
                 viol.append(dict(mech='compare:difference-not-reported:%s' % name, msg='field %s (%s) changed persisted fields %r but diff(x,y)=%d diff(y,x)=%d ==%r' % (name, did, changed, r1, r2, eq)))
             del y
